@@ -166,8 +166,10 @@ func Main(args []string) {
 			fmt.Fprintln(os.Stderr, "harness error:", ex.HarnessErr)
 			break
 		}
-		for _, f := range ex.sortedFound() {
-			n := Reproductions(env, &cfg, f, 5)
+		shapes := ex.sortedFound()
+		hits := Reproductions(env, &cfg, shapes, 5)
+		for i, f := range shapes {
+			n := hits[i]
 			rep.Report(evidence.Report{Oracle: f.Oracle, Sig: f.Sig,
 				Detail: fmt.Sprintf("[%s] after %v: %s (reproduced %d/5)", cfg.Name, f.Path, f.Detail, n),
 				Replay: map[string]any{"config": cfg, "path": f.Path, "trace": traceLines(f.Trace), "reproduced_of_5": n},
